@@ -4,7 +4,7 @@ documentation in specs): arg1 = ethernet_up<<25 | largest_rtr_block<<14 | links<
 arg2/arg3 = largest free SDRAM/SRAM block; data = 18 core-state bytes, H local Ethernet chip
 (x<<8 | y), I IP address.  Probing end to end is decided by bounded/c14_probe.py."""
 from pyvc.spec import contract, lemma
-from pyvc.values import TInt, TBool, TSeq, TRec, ObjV, LitSet, ListV, NONE
+from pyvc.values import TInt, TBool, TSeq, TRec, ObjV, LitSet, ListV, NONE, TTuple
 from pyvc.speclib import implies, iff, forall_range, select, seq_len, bits
 
 BYTES = TSeq(TInt(0, 255), "bytes")
@@ -82,3 +82,63 @@ class GetChipInfo:
 
     def ensures_local_ethernet_chip(g_reply, result):
         return (result.local_ethernet_chip[0] == select(g_reply.data, 19) and result.local_ethernet_chip[1] == select(g_reply.data, 18))
+
+
+# ---- core reservations: maximal runs of busy cores ---------------------------------------------------------
+from pyvc.values import TOpt, TNone, ListV as _ListV, ObjV as _ObjV   # noqa: E402
+from pyvc.speclib import select as _select   # noqa: E402,F401
+
+
+def _rrc(E, args, kwargs, st, node):
+    return [(st, _ObjV("ReserveResourceConstraint", {"resource": args[0], "reservation": args[1], "location": args[2] if len(args) > 2 else kwargs.get("location")}))]
+
+
+@contract("rig/place_and_route/utils.py::_get_minimal_core_reservations")
+class MinimalCoreReservations:
+    """cores: strictly increasing core numbers.  Every yielded reservation is a maximal run of
+    consecutive numbers of the input; runs are yielded in order and together cover the input exactly
+    once (ghost counter g_done = number of input cores covered by the reservations yielded so far)."""
+    properties = ("C14",)
+    params = dict(core_resource=TInt(), cores=TSeq(TInt(0, 17)), chip=TOpt(TTuple(TInt(), TInt())))
+    externals = {"class:ReserveResourceConstraint": _rrc}
+    options = {"opaque_yields": True,
+               "var_shapes": {"reservation": TOpt(TRec("slice", start=TInt(), stop=TInt(), step=TNone()))}}
+    ghost_vars = {"g_done": TInt()}
+    loop_headers = {0: "for core in cores:"}
+    ghost_updates = {"yield ReserveResourceConstraint(core_resource, reservation, chip)": ["gupd_count_covered"]}
+    ghost_asserts = {"yield ReserveResourceConstraint(core_resource, reservation, chip)": ["ghost_reservation_is_the_next_maximal_run"]}
+
+    def native(core_resource, cores, chip):
+        raise __import__("pyvc.replay", fromlist=["OutsideHarness"]).OutsideHarness()
+
+    def requires(cores):
+        return forall_range(0, seq_len(cores) - 1, lambda i: select(cores, i) < select(cores, i + 1))
+
+    def gupd_count_covered(g_done, reservation):
+        return {"g_done": g_done + (reservation.stop - reservation.start)}
+
+    def inv_0_current_run(cores, reservation, g_done, _k0):
+        # `reservation` is the run of consecutive cores ending at the last core seen; the cores before
+        # it are covered by what was yielded
+        return ((reservation is None) == (_k0 == 0) and (reservation is not None or g_done == 0)
+                and (reservation is None or (
+                    g_done >= 0 and g_done + (reservation.stop - reservation.start) == _k0
+                    and reservation.start < reservation.stop
+                    and reservation.stop == select(cores, _k0 - 1) + 1
+                    and reservation.start == select(cores, g_done)
+                    and (g_done == 0 or select(cores, g_done - 1) + 1 < reservation.start))))
+
+    def inv_0_run_is_consecutive(cores, reservation, g_done, _k0):
+        return reservation is None or forall_range(g_done, _k0, lambda m: select(cores, m) == reservation.start + (m - g_done))
+
+    def ghost_reservation_is_the_next_maximal_run(cores, reservation, g_done, chip):
+        # (evaluated after the ghost update: g_done already counts this reservation)
+        n = reservation.stop - reservation.start
+        first = g_done - n
+        return (n >= 1 and first >= 0 and g_done <= seq_len(cores)
+                and forall_range(first, g_done, lambda m: select(cores, m) == reservation.start + (m - first))
+                and (first == 0 or select(cores, first - 1) + 1 < reservation.start)
+                and (g_done == seq_len(cores) or select(cores, g_done) > reservation.stop))
+
+    def ensures_every_core_covered_exactly_once(cores, g_done):
+        return g_done == seq_len(cores)
